@@ -82,7 +82,7 @@ def main() -> int:
     pkgs, owner = [], {}
     shadow_pkgs: set = set()
     param_local_modules: set = set()
-    capture_pkgs: set = set()
+    capture_pkgs: dict = {}
     for j, res in zip(jobs, rs):
         label, feats = info[j["id"]]
         if res.get("_error") or res.get("exc") or not res.get("accepted"):
@@ -99,9 +99,10 @@ def main() -> int:
         if shadowing:
             ev.count("packages_with_a_class_named_like_a_template_import")
             shadow_pkgs.add(Path(res["outdir"]).name)
-        from ._ops import derived_local_capture
-        if derived_local_capture(res.get("manifest") or {}):
-            capture_pkgs.add(Path(res["outdir"]).name)
+        from ._ops import derived_local_capture_names
+        cn_ = derived_local_capture_names(res.get("manifest") or {})
+        if cn_:
+            capture_pkgs[Path(res["outdir"]).name] = cn_
         for e_ in (res.get("manifest") or {}).get("endpoints") or []:
             if {p_["python_name"] for loc_ in e_["params"].values() for p_ in loc_} & {"kwargs", "response", "headers", "cookies", "params"}:
                 param_local_modules.add(f"{Path(res['outdir']).name}/api/{e_['tag']}/{e_['module']}.py")
@@ -168,7 +169,7 @@ def main() -> int:
                 mech_ = None
                 if code == "assignment" and re.search(r"= (self\.\w+\.isoformat\(\)\.encode\(\)|str\(self\.\w+\)(\.encode\(\))?)$", src_line) and "bytes" in msg:
                     mech_ = "multipart_union_member_not_a_tuple"
-                elif code == "comparison-overlap" and src_line.endswith("is not UNSET:") and pkg in capture_pkgs:
+                elif pkg in capture_pkgs and any(re.search(r"\b" + re.escape(n_) + r"\b", src_line + " " + msg) for n_ in capture_pkgs[pkg]):
                     mech_ = "derived_local_captures_property"
                 elif code == "no-redef" and re.match(r"^\w+_item: ", src_line):
                     mech_ = "list_item_variable_annotated_twice"
